@@ -265,7 +265,7 @@ def walk_noclosure(n):
 
 
 class Flow:
-    def __init__(self, facts, fn, inline=None, depth=3, lits=False, self_val=None, param_vals=None, track_idx=False, tagger=None, opaque=()):
+    def __init__(self, facts, fn, inline=None, depth=3, lits=False, self_val=None, param_vals=None, track_idx=False, tagger=None, opaque=(), idx_value=True):
         self.F = facts
         self.root = fn
         self.inline = inline
@@ -273,6 +273,7 @@ class Flow:
         self.lits = lits
         self.events = []
         self.track_idx = track_idx
+        self.idx_value = idx_value   # False: an index does not contribute to the value of v[i] (pure value flow)
         self.tagger = tagger
         self.opaque = set(OPAQUE) | set(opaque)
         self._active = []
@@ -311,15 +312,17 @@ class Flow:
         finally:
             self.events = saved
 
-    def len_paths(self, fr, n, ctx, stack, strict=False, want_eq=False):
+    def len_paths(self, fr, n, ctx, stack, strict=False, want_eq=False, pol=1):
         """access paths whose len()/is_some()/is_none()/height() occurs in this expression (directly, or through a
         local bound to such an expression).  strict: only through arithmetic / casts / refs.
-        want_eq: return (all, eq) where eq = those occurring as an operand of an `==` comparison (or a presence test)."""
+        want_eq: return (all, eq) where eq = those the condition PINS: operands of an `==` that must hold (or of a `!=`
+        that must not hold), or presence tests, and not inside a disjunction that another disjunct can satisfy.
+        pol: +1 when the expression must be true for execution to continue, -1 when it must be false."""
         out = set()
         eqs = set()
-        todo = [(n, False)]
+        todo = [(n, False, pol, False)]
         while todo:
-            x, ueq = todo.pop()
+            x, ueq, pl, weak = todo.pop()
             if not isinstance(x, dict):
                 continue
             k = x.get('k')
@@ -329,33 +332,47 @@ class Flow:
                 for a in flat(rv):
                     if a.startswith('p:'):
                         out.add(a)
-                        if ueq or presence:
+                        if (ueq or presence) and not weak:
                             eqs.add(a)
                 continue
             if k == 'Local':
                 lp = fr.lens.get(x['id'], EMPTY)
                 out |= lp
-                if ueq:
+                if ueq and not weak:
                     eqs |= lp
                 continue
             if strict and k not in ('Bin', 'Un', 'Cast', 'Ref', 'Block', 'Lit', 'Tup'):
                 continue
             if k == 'Closure':
-                todo.append((x['b'], ueq))
+                todo.append((x['b'], ueq, pl, weak))
+                continue
+            if k == 'Un' and x.get('op') == 'Not':
+                todo.append((x['e'], ueq, -pl, weak))
+                continue
+            if k == 'Call' and x['f'].get('k') == 'Def' and x['f'].get('d', '').endswith('__private::not') and len(x['a']) == 1:
+                todo.append((x['a'][0], ueq, -pl, weak))   # anyhow's ensure!: `if not(cond) { return Err }`
                 continue
             if k == 'Bin':
                 op = x.get('op')
+                w = weak
                 if op == 'Eq':
-                    c = True
-                elif op in ('Lt', 'Le', 'Gt', 'Ge', 'Ne'):
+                    c = pl > 0
+                elif op == 'Ne':
+                    c = pl < 0
+                elif op in ('Lt', 'Le', 'Gt', 'Ge'):
                     c = False
+                elif op in ('And', 'Or'):
+                    c = ueq
+                    # `a || b` that must hold (or `a && b` that must fail) is satisfied by either side alone
+                    if (op == 'Or') == (pl > 0):
+                        w = True
                 else:
                     c = ueq
-                todo.append((x['l'], c))
-                todo.append((x['r'], c))
+                todo.append((x['l'], c, pl, w))
+                todo.append((x['r'], c, pl, w))
                 continue
             for c in kids(x):
-                todo.append((c, ueq))
+                todo.append((c, ueq, pl, weak))
         if want_eq:
             return frozenset(out), frozenset(eqs)
         return frozenset(out)
@@ -531,7 +548,7 @@ class Flow:
         ri = n['i']
         if ri.get('k') == 'Struct' and 'Range' in ri.get('d', ''):
             return flat(b) | flat(i)   # sub-slice keeps the collection path
-        return join_keep(elem(b), flat(i))
+        return join_keep(elem(b), flat(i)) if self.idx_value else elem(b)
 
     def ev_Ref(self, fr, n, ctx, stack):
         return self.ev(fr, n['e'], ctx, stack)
@@ -579,7 +596,7 @@ class Flow:
         g_el = el is not None and (diverges_with_err(el) or tail_is_err(el))
         if g_th or g_el:
             ge = Event('guard', n, fr.fn, ctx, stack, val=cf, extra='ensure' if in_macro(n, 'ensure') else 'if')
-            ge.pins, ge.eq_pins = self.len_paths(fr, n['c'], ctx, stack, want_eq=True)
+            ge.pins, ge.eq_pins = self.len_paths(fr, n['c'], ctx, stack, want_eq=True, pol=(-1 if g_th and not g_el else 1))
             self.events.append(ge)
         elif panics(th) or (el is not None and panics(el)):
             mac = macro_of(n) or 'panic'
